@@ -88,6 +88,13 @@ type c20Input struct {
 	// ZeroFirst: the first call on the accepted connection is a Read with an empty buffer (the
 	// documented way to force the handshake on tlcp.Conn / tls.Conn); it must select the stack too
 	ZeroFirst bool `json:"zero_first,omitempty"`
+	// SpeaksFirst: the server's first call on the accepted connection is a Write (a banner), which must run the
+	// handshake as it does on tlcp.Conn / tls.Conn; the client reads the banner before it sends the payload
+	SpeaksFirst bool `json:"speaks_first,omitempty"`
+	// deadline kind: a read deadline of DeadlineMs is armed before the first Read; the client sends the first
+	// Sent bytes of a record (0, or a complete header) and stalls: the Read must fail with a timeout when it is due
+	DeadlineMs int `json:"deadline_ms,omitempty"`
+	Sent       int `json:"sent,omitempty"`
 }
 
 func c20Err(err error) int {
@@ -264,12 +271,61 @@ func c20AddCase(out *emit.Out, scenario string, in c20Input) {
 		out.Add(emit.Case{Scenario: scenario, Trivial: false, Input: in, Direct: direct,
 			Observed: map[string]interface{}{"code": code},
 			Coq:      fmt.Sprintf("RouteCase %s %s %s %d", emit.Bool(in.HasTLCP), emit.Bool(in.HasTLS), coqChunks(in.Chunks), code)})
+	case "deadline":
+		okAdapter, okDirect := c20Deadline(in, true), c20Deadline(in, false)
+		out.Add(emit.Case{Scenario: scenario, Trivial: false, Input: in,
+			Observed: map[string]interface{}{"adapter_ok": okAdapter, "direct_ok": okDirect},
+			Coq:      fmt.Sprintf("E2ECase %s %s", emit.Bool(okAdapter), emit.Bool(okDirect))})
 	case "e2e":
 		okAdapter, okDirect := c20E2E(in, true), c20E2E(in, false)
 		out.Add(emit.Case{Scenario: scenario, Trivial: false, Input: in,
 			Observed: map[string]interface{}{"adapter_ok": okAdapter, "direct_ok": okDirect},
 			Coq:      fmt.Sprintf("E2ECase %s %s", emit.Bool(okAdapter), emit.Bool(okDirect))})
 	}
+}
+
+// c20Deadline: the caller's read deadline, armed before the first Read, is honoured through the adapter as on the stack.
+func c20Deadline(in c20Input, adapter bool) bool {
+	cli, srv, c2s, _ := tk.StreamPair()
+	c2s.Framed = false
+	c2s.Deadlines = true
+	tc, sc := c20Cfgs(true, true)
+	var server net.Conn
+	if adapter {
+		ch := make(chan net.Conn, 1)
+		ch <- srv
+		ln := pa.NewListener(&oneShotListener{ch}, tc, sc)
+		var err error
+		if server, err = ln.Accept(); err != nil {
+			return false
+		}
+	} else if in.Proto == "tlcp" {
+		server = tlcp.Server(srv, tc)
+	} else {
+		server = tls.Server(srv, sc)
+	}
+	major := byte(1)
+	if in.Proto != "tlcp" {
+		major = 3
+	}
+	if in.Sent > 0 {
+		cli.Write([]byte{22, major, 1, 0, 40, 1, 0, 0, 36}[:in.Sent])
+	}
+	d := time.Duration(in.DeadlineMs) * time.Millisecond
+	start := time.Now()
+	server.SetReadDeadline(start.Add(d))
+	res := make(chan error, 1)
+	go func() { _, err := server.Read(make([]byte, 16)); res <- err }()
+	ok := false
+	select {
+	case err := <-res:
+		var ne net.Error
+		ok = errors.As(err, &ne) && ne.Timeout() && time.Since(start) >= d-5*time.Millisecond
+	case <-time.After(d + 2500*time.Millisecond):
+	}
+	cli.Close()
+	srv.Close()
+	return ok
 }
 
 // c20E2E runs a real client (TLCP or TLS) against the adapter (or the stack directly) over a
@@ -310,6 +366,12 @@ func c20E2E(in c20Input, adapter bool) bool {
 	}
 	res := make(chan bool, 2)
 	go func() { // server: echo
+		if in.SpeaksFirst {
+			if _, err := server.Write([]byte("220 ready\r\n")); err != nil {
+				res <- false
+				return
+			}
+		}
 		if in.ZeroFirst {
 			// a zero-length Read forces the handshake, through the adapter as on the stack itself
 			if _, err := server.Read(nil); err != nil {
@@ -341,6 +403,13 @@ func c20E2E(in c20Input, adapter bool) bool {
 		res <- err == nil
 	}()
 	go func() {
+		if in.SpeaksFirst {
+			b := make([]byte, 11)
+			if _, err := io.ReadFull(client, b); err != nil || string(b) != "220 ready\r\n" {
+				res <- false
+				return
+			}
+		}
 		if _, err := client.Write(in.Payload); err != nil {
 			res <- false
 			return
@@ -503,6 +572,14 @@ func runC20(p params) error {
 			seg = nil
 		}
 		c20AddCase(out, "e2e", c20Input{Kind: "e2e", Proto: []string{"tlcp", "tls"}[i%2], Seg: seg, Payload: rb(1 + r.IntN(3000)), ZeroFirst: i%4 >= 2})
+	}
+	// the server speaks first; a read deadline armed before the first Read
+	for i, proto := range []string{"tlcp", "tls"} {
+		c20AddCase(out, "e2e-server-speaks-first", c20Input{Kind: "e2e", Proto: proto, Payload: rb(100 + 300*i), SpeaksFirst: true})
+		c20AddCase(out, "e2e-server-speaks-first", c20Input{Kind: "e2e", Proto: proto, Seg: []int{1, 5, 2}, Payload: rb(700), SpeaksFirst: true})
+		for _, sent := range []int{0, 3, 5, 9} {
+			c20AddCase(out, "deadline-before-first-read", c20Input{Kind: "deadline", Proto: proto, DeadlineMs: 250, Sent: sent})
+		}
 	}
 	return out.Finish()
 }
